@@ -84,19 +84,23 @@ variable (view : α → View α)
 def iterStep (st : St α) (p : Nat) (tm : TM α) (vi : Nat) (its : List (Name × α)) : MR α :=
   match its with
   | (nm, x) :: tl =>
-    .ok (push (setIts st p tl) (derive tm p (.child tm.node nm x) vi vi)) (some st.heap.size) []
+    let q := st.heap.size      -- read before the store is updated (keeps the array uniquely referenced)
+    .ok (push (setIts st p tl) (derive tm p (.child tm.node nm x) vi vi)) (some q) []
   | [] => .ok (restore st p) none []
 
 def vmatchSingle (st : St α) (p : Nat) (tm : TM α) (vi : Nat) (s : Step α) : MR α :=
   match singleOf view s tm.node with
   | none => .ok st none []
-  | some n' => .ok (push st (derive tm p n' vi vi)) (some st.heap.size) []
+  | some n' =>
+    let q := st.heap.size
+    .ok (push st (derive tm p n' vi vi)) (some q) []
 
 def vmatchFilter (st : St α) (p : Nat) (tm : TM α) (vi : Nat) (f : Pred α) : MR α :=
   match (f tm.node).res with
   | .val j =>
     if j.truthy then
-      .ok (push st (derive tm p (.imag tm.node) vi vi)) (some st.heap.size) (.predCall tm.node :: (f tm.node).evs)
+      let q := st.heap.size
+      .ok (push st (derive tm p (.imag tm.node) vi vi)) (some q) (.predCall tm.node :: (f tm.node).evs)
     else .ok st none (.predCall tm.node :: (f tm.node).evs)
   | .raise e =>
     .abort st (.raised (.traversing e)) (.predCall tm.node :: (f tm.node).evs ++ [.raised (.traversing e)])
@@ -119,14 +123,16 @@ def vmatchRecur (st : St α) (p : Nat) (tm : TM α) (vi : Nat) : MR α :=
     match allItems (view tm.node.data) with
     | none => .ok st none []
     | some its =>
-      .ok (push (remember st p its) (derive (parked tm p its) p (.imag tm.node) vi vi)) (some st.heap.size) []
+      let q := st.heap.size
+      .ok (push (remember st p its) (derive (parked tm p its) p (.imag tm.node) vi vi)) (some q) []
   | some [] => .ok (restore st p) none []
   | some ((nm, x) :: tl) =>
     -- the child is created with the recursive vertex but `vertex_index - 1`; then the single
     -- self-call `self.match(match, traverser, vertex_index)` on the fresh child
     match allItems (view x) with
     | none =>
-      .ok (push (setIts st p tl) (derive tm p (.child tm.node nm x) vi (vi - 1))) (some st.heap.size) []
+      let q := st.heap.size
+      .ok (push (setIts st p tl) (derive tm p (.child tm.node nm x) vi (vi - 1))) (some q) []
     | some cits =>
       let q := st.heap.size
       let child : TM α := derive tm p (.child tm.node nm x) vi (vi - 1)
